@@ -8,6 +8,7 @@ mod ctrl;
 mod e2e;
 mod evmasm;
 mod blocks;
+mod cache;
 mod components;
 mod json;
 mod kernels;
@@ -203,6 +204,8 @@ fn main() {
         "reward" => components::cmd_reward(&args),
         "repr" => repr::cmd_repr(&args),
         "once" => once::cmd_once(&args),
+        "cache-history" => cache::cmd_cache_history(&args),
+        "cache-race" => cache::cmd_cache_race(&args),
         "reserve" => reserve::cmd_reserve(&args),
         other => J::obj(vec![("error", J::Str(format!("unknown subcommand {other}")))]),
     };
